@@ -39,6 +39,16 @@ def small_package(ctx, max_modules=4, max_exts=3):
             sim.module.metadata["blob"] = blob
             ctx.probe("payload_over_128KiB")
         modules.append(sim.hugr)
+    if ch.coin(1, 20, "many-modules"):
+        # size class: a package of many (tiny, distinguishable) modules
+        from hugr import tys
+        from hugr.build.function import Module
+        n = 30 + ch.draw(150, "n-more-modules")
+        for i in range(n):
+            m = Module()
+            m.declare_function(f"f{i}", tys.PolyFuncType([], tys.FunctionType([tys.Bool] * (i % 3), [])))
+            modules.append(m.hugr)
+        ctx.probe("package_of_many_modules")
     exts = []
     if ch.draw(max_exts + 1, "n-exts"):
         sess = ExtSession(ctx)
